@@ -162,6 +162,15 @@ OSDEV_UNKNOWN_BIT = [b"4096", b"128", b"18446744073709551615", b"-1", b"92233720
 PCI_VALUES = [b"0000:00:00.0", b"ffff:ff:ff.7", b"10000:00:00.0", b"ffffffff:ff:ff.f", b"0:0:0.0", b"", b"zz", b"0000:00:00", b"0300 [10de:1234] [0000:0000] a1 00", b"0300 [10de:1234] [0000:0000] a1",
               b"ffffffff [ffff:ffff] [ffff:ffff] ff ff", b"0-1", b"1-0", b"1-1", b"0-0", b"7-9", b"4294967295-4294967295", b"0000:[00-ff]", b"ffff:[ff-00]", b"0000:[00-100]"]
 
+# strings made of one escape-worthy character (as it is written in XML), at the lengths where the exporters'
+# expansion ratios matter (1 char -> up to 6 bytes), and mixtures around the 4/5 and 5/6 ratios
+ESCAPES = [b"&quot;", b"&amp;", b"&lt;", b"&gt;", b"&#10;", b"&#13;", b"&#9;"]
+ESCAPE_LENGTHS = [1, 2, 5, 16, 300]
+ESCAPE_VALUES = [e * n for e in ESCAPES for n in ESCAPE_LENGTHS] + \
+                [b"&quot;" * q + b"a" * a for q, a in ((4, 1), (5, 1), (6, 1), (9, 2), (40, 9), (41, 10), (100, 20))] + \
+                [b"a" + b"&quot;" * 30, b"&amp;&quot;" * 20, b"&lt;&gt;&quot;&amp;&#10;&#13;&#9;" * 8, b"&quot;" * 1200]
+STR_VALUES += ESCAPE_VALUES[::3]
+
 SET_ATTRS = {b"cpuset", b"complete_cpuset", b"allowed_cpuset", b"nodeset", b"complete_nodeset", b"allowed_nodeset", b"initiator_cpuset"}
 TYPE_ATTRS = {b"type", b"target_obj_type", b"initiator_obj_type"}
 STR_ATTRS = {b"name", b"subtype", b"value", b"encoding", b"indexing", b"refname", b"obj_attr_name", b"obj_attr_oldvalue", b"obj_attr_newvalue"}
@@ -317,6 +326,30 @@ def mutate(rng, data, allow_osdev_unknown=False, nops=None):
                 ops.append("syntax-ins:%d" % ch)
             toks = tokenize(bytes(s))
     return serialize(toks), ops or ["noop"]
+
+
+def escape_extremes(seed_v3, seed_v2, full=True):
+    """Deterministic family: every string the exporters write (object name/subtype, info name and value of an
+    object / of the topology / of a cpukind, distances name, memattr name) replaced by each ESCAPE_VALUES entry.
+    Yields (bytes, description)."""
+    targets = [(b"object", b"name"), (b"object", b"subtype"), (b"info", b"name"), (b"info", b"value"),
+               (b"distances2", b"name"), (b"distances2hetero", b"name"), (b"memattr", b"name"), (b"userdata", b"name")]
+    for vi, seed in enumerate((seed_v3, seed_v2)):
+        toks0 = tokenize(seed)
+        for tg, at in targets:
+            idx = [i for i, t in enumerate(toks0) if t[0] == "tag" and not t[1] and t[2] == tg and any(a[0] == at for a in t[3])]
+            if not idx:
+                continue
+            vals = ESCAPE_VALUES if (full or vi == 0) else ESCAPE_VALUES[::4]
+            for k, v in enumerate(vals):
+                toks = tokenize(seed)
+                # rotate over the occurrences (first, last, middle): the cpukind and topology infos are the last <info> elements
+                i = idx[(0, -1, len(idx) // 2)[k % 3]]
+                for a in toks[i][3]:
+                    if a[0] == at:
+                        a[1] = v
+                        break
+                yield serialize(toks), "escape:%s.%s:v%d:%s" % (tg.decode(), at.decode(), 3 - vi, (v[:12] + b"..x%d" % len(v)).decode())
 
 
 XML_ALPHABET = [b"<", b">", b"/", b"=", b'"', b" ", b"\n", b"&", b";", b"?", b"!", b"object", b"topology", b"version", b"type", b"Machine", b"PU", b"cpuset", b"0x1", b"2.0", b"3.0",
